@@ -240,6 +240,16 @@ def call_builtin(ex, name: str, args, kwargs, st: State, node) -> Term:
                 return sym("failed_" + name)
         except NotConst:
             pass
+    if name == "int" and n == 2 and ex.sym_bytes and is_const(A[1]) and cval(A[1]) == 16:
+        # int(hexlify(<the l bytes of x>), 16) == x
+        from .layout import builtin_call as _bc
+
+        bc = _bc(unsnap_(A[0]))
+        if bc and bc[0].endswith("hexlify") and len(bc[1]) == 1 and unsnap_(bc[1][0]).op == "sbytes":
+            its = unsnap_(bc[1][0]).args[0]
+            x0 = its[0]
+            if x0.op == "byteof" and x0.args[1] == len(its) and all(x.op == "byteof" and x.args[0] is x0.args[0] and x.args[1] == len(its) and x.args[2] == i for i, x in enumerate(its)):
+                return x0.args[0]
     if name == "len" and n == 1:
         a = A[0]
         o = ex.obj(st, a)
@@ -842,6 +852,19 @@ def call_ext(ex, name: str, args, kwargs, st: State, node) -> Term:
 
             if all(isinstance(v, str) for v in vals):
                 return C(re.sub(*vals))
+        except NotConst:
+            pass
+    if name in ("itertools.chain", "chain") and ex.sym_bytes:
+        parts = [ex.iter_items(a, st) for a in A]
+        if all(p is not None for p in parts):
+            return ex.new_list(st, [x for p in parts for x in p])
+    if name in ("binascii.hexlify", "binascii.b2a_hex") and len(A) == 1:
+        try:
+            import binascii
+
+            v = ex.concrete(A[0], st)
+            if isinstance(v, (bytes, bytearray)):
+                return C(binascii.hexlify(bytes(v)))
         except NotConst:
             pass
     if name in ("binascii.unhexlify", "binascii.a2b_hex") and len(A) == 1:
